@@ -135,7 +135,9 @@ func TestVerifC12Commit(t *testing.T) {
 		}
 		rnd := verifrt.NewRand(verifrt.Seed(), fmt.Sprintf("%s/%d", check, i))
 		rep := validReport(rnd)
-		rep.Week = fmt.Sprintf("20%02d-%02d-%02d", 19+i%12, 1+(i/12)%12, 1+(i/144)%28) // (distinct objects)
+		rep.Week = fmt.Sprintf("20%02d-%02d-%02d", 19+i%12, 1+(i/12)%12, 1+(i/144)%28)
+		// (the object of this case does not exist yet: weeks repeat after 4032 cases)
+		os.Remove(filepath.Join(base, "uploaded", rep.Week, fmt.Sprintf("%g.json", rep.X)))
 		res.Eval()
 		if len(rep.Programs) > 0 {
 			res.Distinct(fmt.Sprint(i))
